@@ -76,6 +76,12 @@ func seq(c *kit.Ctx, id string) {
 	ncommit, ncopy := 0, 0
 	bad := false
 	opts := mon.Opts{Staking: true}
+	type committed struct {
+		roots [3]common.Hash
+		dig   mon.Digest
+	}
+	var inPlace []committed
+	var inPlaceDB state.Database
 	for s := 0; s < nops && !bad; s++ {
 		x := r.Intn(100)
 		switch {
@@ -136,6 +142,55 @@ func seq(c *kit.Ctx, id string) {
 				}
 			}
 			w.NextTx()
+		case x >= 95:
+			// ---- commit IN PLACE: the same StateDB goes on after Commit (chain makers, genesis
+			// builders); every EARLIER committed root must stay reopenable, with its own content,
+			// through the SAME state.Database (warm caches) ----
+			var dNow mon.Digest
+			var r1, r2, r3 common.Hash
+			var cerr error
+			p := kit.Guard(func() {
+				w.St.IntermediateRoot(true)
+				dNow = persistent(mon.Live(w.St, w.U, opts))
+				r1, r2, r3, cerr = w.St.Commit(true)
+			})
+			if p != nil || cerr != nil {
+				c.Violation(guardClass(p, "commit"), fmt.Sprint("Commit on the live object failed: ", p, cerr), w.TailOps(40))
+				bad = true
+				break
+			}
+			w.Ops = append(w.Ops, "commit in place")
+			w.NextTx()
+			if inPlaceDB != w.DB {
+				inPlace, inPlaceDB = nil, w.DB // a fresh Database (Reopen) starts a new series
+			}
+			inPlace = append(inPlace, committed{[3]common.Hash{r1, r2, r3}, dNow})
+			if len(inPlace) > 4 {
+				inPlace = inPlace[1:]
+			}
+			for k, old := range inPlace {
+				var got mon.Digest
+				var err error
+				p := kit.Guard(func() {
+					var st2 *state.StateDB
+					st2, err = state.New(old.roots[0], old.roots[1], old.roots[2], w.DB)
+					if err == nil {
+						got = persistent(mon.Live(st2, w.U, opts))
+					}
+				})
+				c.Evals(1)
+				c.Count("earlier_roots_reopened_through_same_database", 1)
+				if p != nil || err != nil {
+					c.Violation(guardClass(p, "reopen-earlier"), fmt.Sprint("reopening an earlier committed root through the same Database failed: ", p, err), w.TailOps(40))
+					bad = true
+					break
+				}
+				if diff := mon.Diff(old.dig, got); len(diff) > 0 {
+					c.Violation("earlier-root-reopens-with-other-content", fmt.Sprintf("the root committed %d in-place commits ago, reopened through the same state.Database, differs from what was committed in %d observables: %s", len(inPlace)-1-k, len(diff), strings.Join(first(diff, 5), " || ")), map[string]interface{}{"ops": w.TailOps(60), "diff": first(diff, 20)})
+					bad = true
+					break
+				}
+			}
 		case x < 14:
 			// ---- copy: equal, independent (both directions), committable ----
 			ncopy++
